@@ -117,6 +117,19 @@ def build_T11f(tree):
                                  [('frame_offset', 'int')], {'self._first_frame_offset': ('int', 'firstFrameOffset')},
                                  doc='`read_frame_raw`: absolute position the reader seeks to for a frame'))
     shas.append(span_sha([fo, sk]))
+    # the conversion applied to the index by read_frame_raw / read_frame before anything else
+    convs = []
+    for q in ('ImageFileReader.read_frame_raw', 'ImageFileReader.read_frame'):
+        f2 = find_func(tree, q)
+        b2 = [s for s in f2.body if not (isinstance(s, ast.Expr) and isinstance(s.value, ast.Constant))]
+        c = 'none'
+        if isinstance(b2[0], ast.Assign) and ast.unparse(b2[0].targets[0]) == 'index' and isinstance(b2[0].value, ast.Call) \
+                and [ast.unparse(a) for a in b2[0].value.args] == ['index'] and not b2[0].value.keywords:
+            c = ast.unparse(b2[0].value.func)
+        convs.append(c)
+    texts.append('/-- `read_frame_raw` / `read_frame`: the function their first statement applies to `index` -/\n'
+                 'def readerIndexConversion : List String := [' + ', '.join(_q(c) for c in convs) + ']')
+    shas.append(hashlib.sha256(repr(convs).encode()).hexdigest())
     return '\n\n'.join(texts), hashlib.sha256(''.join(shas).encode()).hexdigest()
 
 
@@ -243,6 +256,16 @@ def build_T1c(tree):
                  'expression it is fed from (attribute of the transform resolved to its assignment in `__init__`) -/\n'
                  'def transformDecodeArgs : List (String × String) :=\n  [' + ',\n   '.join(f'({_q(a)}, {_q(b)})' for a, b in rows) + ']')
     shas.append(hashlib.sha256(repr(rows).encode()).hexdigest())
+    # the conversion applied to the frame number before it is compared (accepts exactly the integer types)
+    fn = find_func(tree, '_Image._standardize_frame_index')
+    body = [s for s in fn.body if not (isinstance(s, ast.Expr) and isinstance(s.value, ast.Constant))]
+    conv = 'none'
+    if isinstance(body[0], ast.Assign) and ast.unparse(body[0].targets[0]) == 'frame_number' and isinstance(body[0].value, ast.Call) \
+            and [ast.unparse(a) for a in body[0].value.args] == ['frame_number'] and not body[0].value.keywords:
+        conv = ast.unparse(body[0].value.func)
+    texts.append('/-- `_standardize_frame_index`: the function its first statement applies to `frame_number` ("none" if there is no such '
+                 'statement) -/\ndef frameNumberConversion : String := ' + _q(conv))
+    shas.append(hashlib.sha256(conv.encode()).hexdigest())
     return '\n\n'.join(texts), hashlib.sha256(''.join(shas).encode()).hexdigest()
 
 
